@@ -81,6 +81,14 @@ def build_uni(sim, mw):
     _add_statistic_column(df, pool)  # real: price = previous close
     if pre:
         df = df.loc[sim.index[0]:]
+    # volume0 / volume1 are informational columns derived from the in-amounts when the frame was completed; a frame whose
+    # in-amounts were edited afterwards (a what-if volume scenario), or that never had them, is as legal as any other:
+    # what a bar's volume IS are the in-amounts
+    if mw.get("derived_columns") == "stale":
+        df["volume0"] = df["volume0"].map(lambda x: x * 3)
+        df["volume1"] = df["volume1"].map(lambda x: x / 2)
+    elif mw.get("derived_columns") == "absent":
+        df = df.drop(columns=["volume0", "volume1"])
     market.data = df
     sim.mdata[mw["name"]] = {"pool": pool, "mw": mw}
     return market
